@@ -286,3 +286,26 @@ uint32_t ts_verif_root_ref_count(const TSTree *tree) {
 uint32_t ts_verif_node_lookahead_bytes(TSNode self) {
   return ts_subtree_lookahead_bytes(*(const Subtree *)self.id);
 }
+
+// ---------------------------------------------------------------------------
+// H1: scheduling hook (see atomic.h). NULL unless a harness installs one.
+void (*ts_verif_yield_hook)(int kind, const volatile void *address) = NULL;
+
+void ts_verif_set_yield_hook(void (*hook)(int kind, const volatile void *address)) {
+  ts_verif_yield_hook = hook;
+}
+
+// Internal-form hash that also covers reference counts (used to key C08 states on sharing).
+static void verif_hash_rc(Subtree t, uint64_t *h) {
+  if (t.data.is_inline) return;
+  uint32_t v = t.ptr->ref_count;
+  for (unsigned i = 0; i < 4; i++) { *h ^= (uint8_t)(v >> (8 * i)); *h *= 1099511628211ULL; }
+  const Subtree *children = ts_subtree_children(t);
+  for (uint32_t i = 0; i < t.ptr->child_count; i++) verif_hash_rc(children[i], h);
+}
+
+uint64_t ts_verif_hash_ref_counts(const TSTree *tree) {
+  uint64_t h = 14695981039346656037ULL;
+  verif_hash_rc(tree->root, &h);
+  return h;
+}
